@@ -41,7 +41,10 @@ Variable nmeqb : Nm -> Nm -> bool.
 
 Local Notation row := (list V).
 
-Inductive rowsref := RL (l : list row) | RG (g : nat).
+(* _rows: a list, a generator object, or (round 7) an eager sequence that is NOT a list - a tuple of
+   rows handed to DataFrame(rows=...): re-iterable like a list, but only materialize() makes it the
+   list that slicing, list +, append and the compiled collector need *)
+Inductive rowsref := RL (l : list row) | RG (g : nat) | RT (l : list row).
 Record hframe := mkH { hsch : schema Nm; hrows : rowsref }.
 
 Inductive iter := ILst (rest : list row) | IGen (g : nat).
@@ -59,7 +62,7 @@ Inductive gstate :=
 Record hstate := mkHS { henv : list hframe; hheap : list gstate }.
 
 (* iter(self._rows) *)
-Definition iter_of (r : rowsref) : iter := match r with RL l => ILst l | RG g => IGen g end.
+Definition iter_of (r : rowsref) : iter := match r with RL l => ILst l | RG g => IGen g | RT l => ILst l end.
 
 (* when the generators of select() / filter() / take() bind their source's rows: [true] = when
    the method is called (a generator expression over self._rows: filter and take before 75a1e72,
@@ -150,7 +153,7 @@ Definition gweight (s : gstate) : nat :=
   | GDone => 1
   end.
 
-Definition fweight (f : hframe) : nat := match hrows f with RL l => 2 + length l | RG _ => 2 end.
+Definition fweight (f : hframe) : nat := match hrows f with RL l => 2 + length l | RG _ => 2 | RT l => 2 + length l end.
 
 Definition hfuel (st : hstate) : nat :=
   4 + 2 * (fold_right (fun s a => gweight s + a) O (hheap st) + fold_right (fun f a => fweight f + a) O (henv st)).
@@ -171,6 +174,7 @@ Definition hconsume (st : hstate) (i : nat) : hstate * list row :=
       | RL l => (st, l)
       | RG g => let '(h1, rows) := gdrain (hfuel st) (hfuel st) (henv st) (hheap st) g in
                 (mkHS (henv st) h1, rows)
+      | RT l => (st, l)                          (* a tuple is read like a list and stays a tuple *)
       end
   end.
 
@@ -183,8 +187,13 @@ Definition hmat (st : hstate) (i : nat) : hstate * list row :=
       | RL l => (st, l)
       | RG g => let '(h1, rows) := gdrain (hfuel st) (hfuel st) (henv st) (hheap st) g in
                 (mkHS (set_rows i (RL rows) (henv st)) h1, rows)
+      | RT l => (mkHS (set_rows i (RL l) (henv st)) (hheap st), l)     (* list(tuple): from now on a list *)
       end
   end.
+
+(* frame i after materialize() found a tuple of rows l there: the same schema over the LIST l *)
+Definition now_list (st : hstate) (i : nat) (sc : schema Nm) (l : list row) : hstate :=
+  mkHS (upd i (mkH sc (RL l)) (henv st)) (hheap st).
 
 (* ---------------------------------------------------------------------- *)
 (* step language: one call on one frame object of the environment          *)
@@ -288,16 +297,30 @@ Fixpoint hrun (st : hstate) (prog : list hstepd) : hstate * list hout :=
   end.
 
 (* the frames a case starts from: list-backed, or backed by a plain generator of the rows *)
-Record hinit := mkHI { i_sch : schema Nm; i_rows : list row; i_gen : bool }.
+Inductive ikind := KList | KGen | KTuple.
+Record hinit := mkHI { i_sch : schema Nm; i_rows : list row; i_kind : ikind }.
+
+(* DataFrame(rows=tuple(rows)): "self._rows = rows or []" - an EMPTY tuple is replaced by a list there *)
+Definition tuple_rows (l : list row) : rowsref := match l with [] => RL [] | _ => RT l end.
 
 Fixpoint hstart (fs : list hinit) (st : hstate) : hstate :=
   match fs with
   | [] => st
   | f :: r =>
-      hstart r (if i_gen f
-                then mkHS (henv st ++ [mkH (i_sch f) (RG (length (hheap st)))]) (hheap st ++ [GRows (i_rows f)])
-                else mkHS (henv st ++ [mkH (i_sch f) (RL (i_rows f))]) (hheap st))
+      hstart r (match i_kind f with
+                | KGen => mkHS (henv st ++ [mkH (i_sch f) (RG (length (hheap st)))]) (hheap st ++ [GRows (i_rows f)])
+                | KList => mkHS (henv st ++ [mkH (i_sch f) (RL (i_rows f))]) (hheap st)
+                | KTuple => mkHS (henv st ++ [mkH (i_sch f) (tuple_rows (i_rows f))]) (hheap st)
+                end)
   end.
+
+(* round 7: the same state / initial frames with every tuple of rows replaced by the LIST of those rows
+   (used only to STATE that the container makes no difference: Props C03_tuple_backed_programs) *)
+Definition listed (r : rowsref) : rowsref := match r with RT l => RL l | x => x end.
+Definition listed_frame (f : hframe) : hframe := mkH (hsch f) (listed (hrows f)).
+Definition listed_st (st : hstate) : hstate := mkHS (map listed_frame (henv st)) (hheap st).
+Definition as_list_init (f : hinit) : hinit :=
+  mkHI (i_sch f) (i_rows f) (match i_kind f with KTuple => KList | k => k end).
 
 Definition hout_eqb (a b : hout) : bool :=
   match a, b with
@@ -308,7 +331,7 @@ Definition hout_eqb (a b : hout) : bool :=
 
 End Heap.
 
-Arguments RL {V}. Arguments RG {V}.
+Arguments RL {V}. Arguments RG {V}. Arguments RT {V}.
 Arguments mkH {V Nm}. Arguments hsch {V Nm}. Arguments hrows {V Nm}.
 Arguments ILst {V}. Arguments IGen {V}.
 Arguments GRows {V}. Arguments GSelectNew {V}. Arguments GSelect {V}. Arguments GFilter {V}.
@@ -317,7 +340,8 @@ Arguments mkHS {V Nm}. Arguments henv {V Nm}. Arguments hheap {V Nm}.
 Arguments HOp {V Nm}. Arguments HList {V Nm}. Arguments HMat {V Nm}.
 Arguments mkHStep {V Nm}. Arguments h_src {V Nm}. Arguments h_op {V Nm}.
 Arguments HNew {V Nm}. Arguments HVal {V Nm}.
-Arguments mkHI {V Nm}. Arguments i_sch {V Nm}. Arguments i_rows {V Nm}. Arguments i_gen {V Nm}.
+Arguments listed {V}. Arguments listed_frame {V Nm}. Arguments listed_st {V Nm}. Arguments as_list_init {V Nm}.
+Arguments mkHI {V Nm}. Arguments i_sch {V Nm}. Arguments i_rows {V Nm}. Arguments i_kind {V Nm}. Arguments tuple_rows {V}.
 
 (* ====================================================================== *)
 (* Instance used by the correspondence (values integers, names numbers)    *)
@@ -441,6 +465,7 @@ Definition astep (st : astate) (s : astepd) : astate * aout :=
           match kind (hsch fr), hrows fr with
           | Typed _, _ => (st, AOut (HVal (ORaise TypeError)))      (* RelationSchema.validate: a tuple is not a dictionary *)
           | Untyped, RG _ => (st, AOut (HVal (ORaise TypeError)))   (* a generator has no append (AttributeError) *)
+          | Untyped, RT _ => (st, AOut (HVal (ORaise TypeError)))   (* nor has a tuple *)
           | Untyped, RL l =>
               (mkAS (mkHS (set_rows V Nm i (RL (l ++ [r])) env) (hheap (a_h st))) (a_pool st), AOut (HNew []))
           end
